@@ -99,9 +99,9 @@ pub fn pool(seed: u64) -> Vec<Call> {
     cands.sort_by_key(|g| std::cmp::Reverse(score(g)));
     groups.extend(cands.into_iter().take(5));
     groups.extend(b.tuple_histories.iter().filter(|g| g.len() >= 3 && crate::props::derived::group_ok(g)).take(2).cloned());
-    for pair in [["Twin", "TwinOther"], ["TwinE", "TwinEOther"]] {
+    for pair in [vec!["Twin", "TwinOther"], vec!["TwinE", "TwinEOther"], vec!["MemoV0", "MemoV1", "MemoV2"]] {
         let g: Vec<_> = b.specials.iter().filter(|d| pair.contains(&d.name.as_str())).cloned().collect();
-        if g.len() == 2 && crate::props::derived::group_ok(&g) {
+        if g.len() == pair.len() && crate::props::derived::group_ok(&g) {
             groups.push(g);
         }
     }
